@@ -152,6 +152,7 @@ type Engine struct {
 	tmSelect  func(e *Exec, st *State, x *ssa.Select, idx string)
 	tmClose   func(e *Exec, st *State, cc *ssa.CallCommon, args []Val)
 	tmInvoke  func(e *Exec, st *State, cc *ssa.CallCommon, fv Val, args []Val, dst ssa.Value) bool
+	scenarioErrList []string // scenario types that did not resolve (reported as contract mismatches)
 	tmAtomic  func(e *Exec, st *State, name string, cc *ssa.CallCommon, args []Val, dst ssa.Value) bool
 	tmLock    func(e *Exec, st *State, name string, cc *ssa.CallCommon, args []Val)
 
